@@ -1165,7 +1165,7 @@ def encode_world(world: dict, layout: str) -> tuple[dict[int, bytes], dict[bytes
 
 
 def synth_file(layout: str, compress: str = 'none', game_comp: bool = False, origin_vertex: bool = False,
-               world: Optional[dict] = None) -> tuple[bytes, dict]:
+               world: Optional[dict] = None, broken: Optional[str] = None) -> tuple[bytes, dict]:
     """A fully populated BSP of the given layout.  compress: 'none' | 'one' | 'all' (LZMA on one / every
     non-empty lump except the pakfile and the game-lump container, which the format never compresses)."""
     lay = LAYOUTS[layout]
@@ -1186,9 +1186,13 @@ def synth_file(layout: str, compress: str = 'none', game_comp: bool = False, ori
             data, ver = filler(i, rich=compress != 'all')
         if i == L.ENTITIES.value:
             ver = 0  # the L4D2 header probe looks at this field
+            if broken == 'ents':
+                data = data.rstrip(b'\x00') + b'}\n}\n'     # too many closing brackets: the entity parser raises on this
         comp = compress == 'all' or (compress == 'one' and i == L.LEAFS.value)
         lumps[i] = (data, ver, comp)
     sprp_ver = SPV[lay['sprp']].version
+    if broken == 'sprp':
+        sprp_ver = 99      # unsupported static prop version: the props view cannot be parsed
     gl = [(b'sprp', 1 if game_comp else 0, sprp_ver, game[b'sprp']),
           (b'dprp', 1 if game_comp else 0, 4, game[b'dprp']),
           (b'xtra', 2, 3, b'opaque game lump \x00\x01\x02')]
